@@ -522,9 +522,15 @@ impl<A: Send + 'static> Cell<A> {
     where
         A: Clone,
     {
-        let cca2 = cca.clone();
         let cca = cca.clone();
         let sodium_ctx = cca.sodium_ctx();
+        // The result starts from the value the current inner cell has in the constructing transaction. It is
+        // taken at the end of that transaction (a CellLoop may still be unlooped before), as a Lazy of the
+        // inner cell's value; until then the outer cell itself is kept for a demand inside the transaction.
+        let init_slot: Arc<Mutex<Option<Lazy<A>>>> = Arc::new(Mutex::new(None));
+        let init_cca: Arc<Mutex<Option<Cell<Cell<A>>>>> = Arc::new(Mutex::new(Some(cca.clone())));
+        let init_slot2 = init_slot.clone();
+        let init_cca2 = init_cca.clone();
         Stream::_new(&sodium_ctx, |sa: StreamWeakForwardRef<A>| {
             let node1 = Node::new(
                 &sodium_ctx,
@@ -545,7 +551,10 @@ impl<A: Send + 'static> Cell<A> {
                 let node2 = node2.clone();
                 sodium_ctx.pre_eot(move || {
                     let mut last_inner_s = last_inner_s.lock();
-                    let s = cca.sample().updates();
+                    let inner = cca.sample();
+                    *init_slot2.lock() = Some(inner.sample_lazy());
+                    *init_cca2.lock() = None;
+                    let s = inner.updates();
                     *last_inner_s = Stream::downgrade(&s);
                     node2.add_dependency(s);
                 });
@@ -619,7 +628,16 @@ impl<A: Send + 'static> Cell<A> {
             }
             node2
         })
-        .hold_lazy(Lazy::new(move || cca2.sample().sample()))
+        .hold_lazy(Lazy::new(move || {
+            let taken = init_slot.lock().clone();
+            match taken {
+                Some(init) => init.run(),
+                None => {
+                    let cca = init_cca.lock().clone();
+                    cca.unwrap().sample().sample()
+                }
+            }
+        }))
     }
 
     pub fn listen_weak<K: FnMut(&A) + Send + Sync + 'static>(&self, k: K) -> Listener
